@@ -98,8 +98,8 @@ CHECKS = {
  "C12": C("proof",
     "12 theorems: index sets J/K sorted and partition [0,n) for every mask; storage and qr layouts tile their buffers for all dimensions; forward cost = sum of stage costs + penalties along the roll-out for arbitrary f,h,l,c; backward sweep = transposed linearisation (adjoint identity for every perturbation, by induction on N, incl. penalty terms); Riccati factor+solve satisfies the KKT system of the masked equality-constrained QP for every horizon and mask (PARTIAL: stationarity, not minimality). "
     "Correspondence (teacher-forced problem functions) and oracle: independent roll-out, complex-step gradient, dense KKT solve, both factorisations, all 2^nu masks.",
-    "4/C12", TB_REALS + CORR + "chain rule and Eigen LDLT/LU are parameters (lsolve hypothesis); Riccati minimiser statement not proved (needs positive-definiteness bookkeeping).",
-    "Coq proofs (layout, index sets, adjoint, Riccati KKT) + correspondence + independent numeric oracle"),
+    "4/C12", TB_REALS + CORR + "translator translate/gen_ocp.py (OcpGen.v: OCPVariables layout, per-stage bodies and orders of forward / backward / factor_masked / solve_masked by symbolic execution; 87 equalities with Ocp.v in OcpGenEq.v; run at binary64 on the recorded cases); chain rule and Eigen LDLT/LU are parameters (lsolve hypothesis).",
+    "Translator-generated OCP evaluator / LQR code + Coq proofs (layout, index sets, adjoint, Riccati KKT and unique minimiser) + correspondence + independent numeric oracle"),
  "C13": C("proof",
     "14 theorems: on the status chain GENERATED from PANOC-OCP's private copy Converged <=> eps <= tolerance (and the copy equals the shared chain); the returned input sequence is u_hat = u + p with p the projected-gradient step, hence inside the input box componentwise; the criterion switch evaluates exactly the six supported criteria and each equals its documented formula at (u_k, u_hat_k, gamma_k); Converged certifies that residual <= tolerance; the gradient fed to it is the derivative of the forward cost (C12's adjoint theorem); multiplier / constraint-error relations per row as for the general solvers. "
     "Whole-loop model of PANOCOCPSolver::operator() (PanocOcpLoop.v, Properties_PANOCOCP.v: 20 theorems for every oracle incl. converged_certifies; whole-run correspondence through drv_ocp, Gauss-Newton block teacher-forced). Correspondence: teacher-forced on every progress record of the real PANOCOCPSolver (prox step, envelope, QUB, line search, criterion incl. the throwing case, status, free-index count, write_solution); oracle: residual recomputed from an independent roll-out with complex-step gradient, box membership, u = u_hat, multiplier relations, status / count clauses, GN always / periodically / never.",
@@ -125,10 +125,10 @@ CHECKS = {
     "4/C18", "Coq 8.16.1 kernel, no axioms; translator translate/gen_C18_tables.py (g++ -E + header parsing, compiler cross-checks); " + CORR + "decimal-to-double conversion is an oracle; duration rounding validated by correspondence.",
     "Translator-generated tables + Coq frame/rejection proofs + correspondence + parser oracle"),
  "C19": C("proof",
-    "PARTIAL. Proved: on the status chain GENERATED from the code a pending stop request never yields Busy; for every observation sequence the loop skeleton returns at the first check that sees the request with Interrupted or a higher-ranked status, and Interrupted only after a request; ALM returns immediately after an Interrupted inner solve, and (composed models over all four inner solvers) the run ends at the outer iteration in which a sticky request becomes visible: no inner solve is started after the request; Interrupted overwrites outputs like Converged (C03 relations). "
+    "PARTIAL (asynchrony / data race only). PROMPTNESS proved on the whole-loop models of PANOC, ZeroFPR, PANTR, FISTA and PANOC-OCP (tied to the code by whole-run correspondence) for a sticky request: a line-search test that sees it returns with no further work, the next stop check returns a non-Busy status, and after the first poll that sees the request PANOC makes <= 1 further poll, <= 2 oracle calls, 0 direction calls, 1 callback (ZeroFPR <= 1, PANTR 0, FISTA <= 1, PANOC-OCP 0 oracle calls), independent of max_iter and of the direction; outputs satisfy C03's relations. Also proved: on the status chain GENERATED from the code a pending stop request never yields Busy; for every observation sequence the loop skeleton returns at the first check that sees the request with Interrupted or a higher-ranked status, and Interrupted only after a request; ALM returns immediately after an Interrupted inner solve, and (composed models over all four inner solvers) the run ends at the outer iteration in which a sticky request becomes visible: no inner solve is started after the request; Interrupted overwrites outputs like Converged (C03 relations). "
     "Explored by exhaustive fault enumeration on fixed problems: stop() from every evaluation index, callback index and direction-provider call for 12 stacks stand-alone and under ALM: status, tail length, outputs, ALM propagation. Not claimed: asynchronous calls from other threads and data-race freedom.",
     "4/C19", TB_REALS + "asynchrony / data race not expressible in a Gallina model (stated in evidence.assumptions); promptness: proved bounds for PANOC / ZeroFPR / FISTA, empirical for PANTR (largest per-iteration evaluation count of the unstopped run + 8, stand-alone and under ALM: no inner solve starts after the request).",
-    "Coq proofs on generated chain + loop skeleton, fault enumeration of stop injection points"),
+    "Coq proofs on the generated chain, the whole-loop models (promptness with explicit bounds) and the composed ALM models + fault enumeration of stop injection points against the proved bounds"),
  "C20": C("proof",
     "25 axiom-free theorems: shared-counter model for arbitrary histories of new/call/copy/assign/decouple/reset: value read = number of calls through any sharing wrapper since creation or reset, copy shares, decouple separates, reset keeps the wrapper usable; finite theorems over tables TRANSLATED from problem-with-counters.hpp / ocproblem.hpp / dl-problem.cpp: each member counts its own counter, forwards to the same name with the same argument order, requires-clause subject matches, DL forwarders match the C signatures. "
     "Correspondence on counter histories; translation validation of wrappers and generated C plug-ins against a native reference (every entry point bitwise), provides/supports truth, load failures.",
